@@ -268,7 +268,7 @@ static inline void worker_loop(Harness &h, Shared *sh, int wid, uint64_t seed, i
     if (o.violation) {
       ChildEnd ce; ce.status = "violation"; ce.cls = o.cls; ce.sig = o.sig; ce.detail = o.detail;
       h.reclassify(plan, ce);
-      if (ce.cls.compare(0, 5, "side_") == 0) { o.cls = ce.cls; o.sig = ce.sig; o.detail = ce.detail; }
+      o.cls = ce.cls; o.sig = ce.sig; o.detail = ce.detail;  // (a reclassification may also name another non-side class)
       Json r = Json::object();
       r.set("index", (long long) ix); r.set("status", ce.cls.compare(0, 5, "side_") == 0 ? "side" : "violation"); r.set("cls", o.cls); r.set("sig", o.sig); r.set("detail", o.detail);
       fprintf(ff, "%s\n", r.str().c_str()); fflush(ff);
